@@ -44,6 +44,8 @@ var c20Reqs = []c20Req{
 	{"fragments", `query($f:Filter){ ...F echo(f:$f, l:[1,2]) } fragment F on Query { b { ...N nodes(n:2) { ...N } } } fragment N on Node { id peer { id kind } }`,
 		[]map[string]interface{}{v("f", map[string]interface{}{"min": 3}), nil, v("f", map[string]interface{}{"kind": "BETA", "tags": []interface{}{"t"}})},
 		map[string]int{"b": 1, "b.id": 1, "b.nodes.id": 1, "b.peer": 1}},
+	{"literal-and-variable-args", `query($i:Int,$n:Int,$s:String){ echo(i:$i, s:"lit") echo2(s:$s, i:4) nodes(n:$n, as:"A") { id } a { items(n:$n) { n } name(up:true) } }`,
+		[]map[string]interface{}{v("i", 5, "n", 3, "s", "sv"), v("i", 1, "n", 1), v("s", "only-s")}, nil},
 	{"static-args", `{ echo(i:1, s:"a", e:BETA, f:{min:2}) echo2(l:[4,5]) a { items(n:3) { n } name(up:true) } }`, nil, nil},
 	{"union-default-resolve", `{ u { ... on A { aOnly items(n:1) { n } } ... on B { bOnly } } b { u { ... on A { id } ... on B { id } } } }`, nil, nil},
 }
@@ -60,6 +62,9 @@ type C20Scn struct {
 	Clients [][]C20Exec `json:"clients"`
 	Park    []string    `json:"park"`
 	Sticky  int         `json:"stickiness"`
+	// ExtPlan, when set, registers one instrumented extension whose hooks
+	// panic according to the plan (keys like "E1.RS@<path>")
+	ExtPlan map[string]string `json:"ext_plan,omitempty"`
 }
 
 type c20 struct{}
@@ -116,6 +121,13 @@ func (p c20) Gen(seed uint64, enum int, tier string) json.RawMessage {
 		}
 		s.Clients = append(s.Clients, execs)
 	}
+	if r.Chance(25) {
+		paths := c20Paths(s.Req, 0, 0)
+		s.ExtPlan = map[string]string{}
+		if len(paths) > 0 && r.Chance(70) {
+			s.ExtPlan["E1."+[]string{"RS", "RE"}[r.Intn(2)]+"@"+paths[r.Intn(len(paths))]] = []string{"error", "string"}[r.Intn(2)]
+		}
+	}
 	if nc > 1 {
 		for _, c := range c20AllPark {
 			if r.Chance(65) {
@@ -167,6 +179,7 @@ type c20State struct {
 	frags   map[string]ast.Definition
 	rootTyp string
 	occ     map[string]int
+	vars    map[string]interface{} // the variables as supplied for this execution
 }
 
 func collectFields(sel *ast.SelectionSet, into map[*ast.Field]bool) {
@@ -303,6 +316,26 @@ func (st *c20State) check(rc *ReqCtx, p *graphql.ResolveParams, path string) {
 	if info.Schema.QueryType() != st.w.Obj["Query"] {
 		bad("Info.Schema is not the schema the request runs against")
 	}
+	// an argument whose value is exactly `$var` carries what was supplied for the
+	// variable (plain Int / String / Boolean values coerce to themselves)
+	if len(info.FieldASTs) > 0 && info.FieldASTs[0] != nil {
+		for _, a := range info.FieldASTs[0].Arguments {
+			vr, ok := a.Value.(*ast.Variable)
+			if !ok || a.Name == nil || vr.Name == nil || strings.HasPrefix(vr.Name.Value, "__pcv") {
+				continue
+			}
+			supplied, has := st.vars[vr.Name.Value]
+			if !has {
+				continue
+			}
+			switch supplied.(type) {
+			case int, string, bool:
+				if got := p.Args[a.Name.Value]; got != supplied && got != "POISON" && !(fmt.Sprint(got) == "POISON"+strconv.Itoa(rc.Req)+rc.Task) {
+					bad("argument %s is fed by $%s = %v but the resolver received %v", a.Name.Value, vr.Name.Value, supplied, got)
+				}
+			}
+		}
+	}
 	if _, poisoned := p.Args["__poison"]; poisoned {
 		bad("Args contains a key written by another resolver invocation: %v", p.Args)
 	}
@@ -342,9 +375,16 @@ type c20Solo struct {
 }
 
 // c20RunSolo executes one execution alone, from scratch, on a cold schema.
-func c20RunSolo(req int, e C20Exec, ord int, task string) c20Solo {
+func c20World(extPlan map[string]string) *World {
+	if extPlan == nil {
+		return NewWorld("A")
+	}
+	return NewWorld("A", &SimExt{N: "E1", R: &ExtRun{Plan: extPlan, HasResult: map[string]bool{}}})
+}
+
+func c20RunSolo(req int, e C20Exec, ord int, task string, extPlan map[string]string) c20Solo {
 	rq := c20Reqs[req]
-	w := NewWorld("A")
+	w := c20World(extPlan)
 	doc, _ := parseDoc(rq.Query)
 	root := Tok{T: c07Root(rq.Query), P: "", R: ord}
 	st := newC20State(w, doc, root, rq.Occ)
@@ -354,10 +394,16 @@ func c20RunSolo(req int, e C20Exec, ord int, task string) c20Solo {
 	if e.Vars < len(rq.Vars) {
 		vs = rq.Vars[e.Vars]
 	}
+	st.vars = vs
 	res := graphql.Execute(graphql.ExecuteParams{Schema: w.Schema, Root: root, AST: doc, Args: vs, Context: WithReq(context.Background(), rc)})
 	rc.mu.Lock()
 	defer rc.mu.Unlock()
 	return c20Solo{args: rc.ArgLog, result: MarshalResult(res)}
+}
+
+func (st *c20State) withVars(vs map[string]interface{}) *c20State {
+	st.vars = vs
+	return st
 }
 
 func stripIndices(p string) string {
@@ -408,7 +454,7 @@ func (c20) Run(t TestingT, scn json.RawMessage, tape *Tape) *Outcome {
 	}
 	solo := map[int]c20Solo{}
 	for _, sl := range slots {
-		solo[sl.ord] = c20RunSolo(sc.Req, sc.Clients[sl.ci][sl.ei], sl.ord, fmt.Sprintf("c%d", sl.ci+1))
+		solo[sl.ord] = c20RunSolo(sc.Req, sc.Clients[sl.ci][sl.ei], sl.ord, fmt.Sprintf("c%d", sl.ci+1), sc.ExtPlan)
 	}
 
 	s := NewSim(tape)
@@ -422,8 +468,10 @@ func (c20) Run(t TestingT, scn json.RawMessage, tape *Tape) *Outcome {
 		result string
 	}
 	results := map[int]*execOut{}
+	var noCtx int64
 	pan := Bubble(t, s, func() {
-		w := NewWorld("A")
+		w := c20World(sc.ExtPlan)
+		defer func() { noCtx = w.NoCtx.Load() }()
 		doc, err := parseDoc(rq.Query)
 		if err != nil {
 			panic("c20: pool query does not parse")
@@ -463,11 +511,11 @@ func (c20) Run(t TestingT, scn json.RawMessage, tape *Tape) *Outcome {
 					var res *graphql.Result
 					switch sc.Entry {
 					case "plan":
-						rc.Check = newC20State(w, doc, root, rq.Occ).check
+						rc.Check = newC20State(w, doc, root, rq.Occ).withVars(vs).check
 						res = graphql.ExecutePlan(plan, graphql.ExecuteParams{Schema: w.Schema, Root: root, Args: vs, Context: ctx})
 					case "cache", "cache-norm":
 						// the cache parses the text itself: occurrences are nodes of its own document
-						rc.Check = newC20State(w, nil, root, rq.Occ).check
+						rc.Check = newC20State(w, nil, root, rq.Occ).withVars(vs).check
 						pr := cache.Get(&w.Schema, rq.Query, "")
 						if pr.Plan == nil {
 							res = &graphql.Result{Errors: pr.Errors}
@@ -475,7 +523,7 @@ func (c20) Run(t TestingT, scn json.RawMessage, tape *Tape) *Outcome {
 							res = graphql.ExecutePlan(pr.Plan, graphql.ExecuteParams{Schema: w.Schema, Root: root, Args: mergeArgs(vs, pr.SynthArgs), Context: ctx})
 						}
 					default:
-						rc.Check = newC20State(w, doc, root, rq.Occ).check
+						rc.Check = newC20State(w, doc, root, rq.Occ).withVars(vs).check
 						res = graphql.Execute(graphql.ExecuteParams{Schema: w.Schema, Root: root, AST: doc, Args: vs, Context: ctx})
 					}
 					results[n].rc = rc
@@ -497,6 +545,9 @@ func (c20) Run(t TestingT, scn json.RawMessage, tape *Tape) *Outcome {
 	if s.Stuck || s.CapHit {
 		o.Violate("C20/deadlock", "clients did not finish: %v", s.StuckOn)
 		return o
+	}
+	if noCtx > 0 {
+		o.Violate("C20/context-lost", "%d callback invocations did not receive the request's context", noCtx)
 	}
 	if nExec > 1 && sc.Entry != "execute" {
 		o.Probe("plan-reused")
@@ -559,6 +610,27 @@ func (c20) Run(t TestingT, scn json.RawMessage, tape *Tape) *Outcome {
 			if _, ok := ref.args[p]; !ok {
 				o.Violate("C20/extra-field-resolved", "execution %d: %q was resolved here but not when run alone", sl.ord, p)
 				break
+			}
+		}
+		{
+			var dec struct {
+				Data interface{} `json:"data"`
+			}
+			json.Unmarshal([]byte(ex.result), &dec)
+			ex.rc.mu.Lock()
+			typeAt := map[string]string{}
+			for k, v := range ex.rc.TypeAt {
+				typeAt[k] = v
+			}
+			ex.rc.mu.Unlock()
+			var vs map[string]interface{}
+			if e := sc.Clients[sl.ci][sl.ei]; e.Vars < len(rq.Vars) {
+				vs = rq.Vars[e.Vars]
+			}
+			if doc, err := parseDoc(rq.Query); err == nil {
+				if msg := CheckSelectedKeys(doc, "", vs, c07Root(rq.Query), dec.Data, typeAt, NewWorldPossible()); msg != "" {
+					o.Violate("C20/unselected-or-missing-key", "execution %d: %s\n response: %s", sl.ord, msg, ex.result)
+				}
 			}
 		}
 		if ex.result != ref.result {
